@@ -100,6 +100,10 @@ func (t *ImmutableTree) VerifyNonMembership(proof *ics23.CommitmentProof, key []
 func (t *ImmutableTree) createExistenceProof(key []byte) (*ics23.ExistenceProof, error) {
 	t.Hash()
 	path, node, err := t.root.PathToLeaf(t, key, t.nextVersion())
+	if node == nil {
+		// the leaf could not be reached (a node failed to load)
+		return nil, err
+	}
 	nodeVersion := t.nextVersion()
 	if node.nodeKey != nil {
 		nodeVersion = node.nodeKey.version
